@@ -5,6 +5,7 @@ import QP.Proofs.PTTopW
 import QP.Proofs.PTTop2W
 import QP.Proofs.PTTop3W
 import QP.Proofs.PTSingle
+import QP.Proofs.PTDurTop
 /-!
 # C04 — durations are exact and the template, the program and its pieces agree on them
 
@@ -96,6 +97,48 @@ theorem duration_agree_single_partial {pt : PT} (hs : Stage3R pt) (params : List
     (htS : QP.C05.allLeaves (QP.C05.tidy c) progS = true) :
     progS.duration = P.dur :=
   (createProgram_single_W hs params mm cm S prog0 progS P h0 hnn0 hS hden hclean c ht0 htS).1
+
+/-- **`pt.duration` at the parameters = duration of the program** (C04 full strength, `_partial`): for every template
+built from the proved atoms by ALL composite constructors (`Stage3R`: sequence, repetition, iteration, mapping, time
+reversal, parallel channels, arithmetic with a scalar), whenever the instance is `Live` — the statement holds at its
+atoms in the scopes they are instantiated in (`DurAtom`; `template_duration_const`, `template_duration_func` give
+sufficient conditions: a channel is kept, no negative duration), repetition counts are exact naturals and loop bounds
+exact integers — the symbolic duration expression of the class, evaluated at the parameters, is the duration of the
+program `create_program` returns (0 if it returns none). -/
+theorem template_duration_agree_partial {pt : PT} (hs : Stage3R pt) (params : List (String × Rat))
+    (mm : Option (List (MName × Option MName))) (cm : List (Chan × Option Chan)) (prog? : Option Loop) (P : Pulse)
+    (d : Rat) (hl : Live pt (.dict params) (topCm pt cm))
+    (hprog : createProgram pt params mm cm [] = .ok prog?) (hden : denoteTop pt params mm cm = .ok P)
+    (hd : templateDuration pt (.dict params) = .ok d) :
+    d = (match prog? with | some prog => prog.duration | none => 0) :=
+  templateDuration_program hs params mm cm prog? P d hl hprog hden hd
+
+/-- … and of the denoted pulse, in any scope and under any mappings (all 7 composite constructors, any atoms for
+which it holds); an empty pulse lasts 0 -/
+theorem template_duration_denoted {pt : PT} {σ : Scope} {cm : List (Chan × Option Chan)} (hl : Live pt σ cm)
+    (mm : List (MName × Option MName)) (d : Rat) (P : Pulse)
+    (hd : templateDuration pt σ = .ok d) (hden : denote pt σ mm cm = .ok P) :
+    d = P.dur ∧ (P.chans = [] → P.dur = 0) := live_dur hl mm d P hd hden
+
+/-- the atom statement for `ConstantPT`: it keeps a channel and its duration is not negative -/
+theorem template_duration_const (id : Option String) (dur : Expr) (amps : List (Chan × Expr)) (meas : List MeasDecl)
+    (σ : Scope) (cm : List (Chan × Option Chan))
+    (hkeep : ∃ ch e o, (ch, e) ∈ amps ∧ cm.lookup ch = some (some o))
+    (hnn : ∀ d, σ.eval dur = .ok d → 0 ≤ d) : Live (.const id dur amps meas) σ cm :=
+  Live.atom (durAtom_const id dur amps meas σ cm hkeep hnn)
+
+/-- the atom statement for `FunctionPT`: it keeps its channel -/
+theorem template_duration_func (id : Option String) (ch : Chan) (dur e : Expr) (meas : List MeasDecl)
+    (cons : List Expr) (σ : Scope) (cm : List (Chan × Option Chan)) (o : Chan)
+    (hkeep : cm.lookup ch = some (some o)) : Live (.func id ch dur e meas cons) σ cm :=
+  Live.atom (durAtom_func id ch dur e meas cons σ cm o hkeep)
+
+/-- the hypotheses matter: a `ConstantPT` all of whose channels are dropped has `duration = 2` and no program -/
+example : templateDuration exPt (.dict []) = .ok 2 ∧ denote exPt (.dict []) [] [("A", none)] = .ok Pulse.empty := by
+  constructor
+  · simp [templateDuration, exPt, Scope.eval, Expr.eval]
+  · norm_num [denote, exPt, Scope.eval, Expr.eval, chanLookup, dictOfList, List.filterMapM_cons, List.filterMapM_nil,
+      bind, Except.bind, pure, Except.pure]
 
 /-! ## Non-vacuity -/
 
